@@ -177,7 +177,10 @@ def _allow(caller: FuncInfo, callee: FuncInfo) -> bool:
     if callee.outer is not None:
         return False
     if callee.cls is not None and not _helper_class(callee.cls):
-        return False
+        # a concrete convenience method of the graph base class built on the three accessors (`graph.hierarchy_below(node)`) is part of
+        # the search, not of the vocabulary
+        if not (callee.cls.name == "AbstractGraph" and callee.name not in (SUCC, PRED, HIER, "nodes") and not callee.is_abstract and not callee.is_property):
+            return False
     if callee.module.name == SEARCHES and not callee.name.startswith("_"):
         return False
     if _self_recursive(callee):
